@@ -51,32 +51,6 @@ fn gen_replacement(t: &mut Tape, ids: &[u64], regime: Regime, ctx: &mut Ctx) -> 
     render(t, &terms, &cfg, ctx)
 }
 
-/// abs-polynomial helpers for the general-regime tolerance: map monomial -> sum of |products|
-type AbsPoly = BTreeMap<Mono, f64>;
-
-fn abs_mul(a: &AbsPoly, b: &AbsPoly) -> AbsPoly {
-    let mut r = AbsPoly::new();
-    for (k1, c1) in a {
-        for (k2, c2) in b {
-            let mut k = k1.clone();
-            k.extend_from_slice(k2);
-            k.sort_unstable();
-            *r.entry(k).or_default() += c1 * c2;
-        }
-    }
-    r
-}
-
-fn abs_of(f: &v1::Function, floor1: bool) -> AbsPoly {
-    let mut r = AbsPoly::new();
-    for (ids, c) in raw_terms(f) {
-        let mut k = ids.clone();
-        k.sort_unstable();
-        *r.entry(k).or_default() += if floor1 { c.abs().max(1.0) } else { c.abs() };
-    }
-    r
-}
-
 fn abs_compose(f: &v1::Function, repl: &BTreeMap<u64, v1::Function>, floor1: bool) -> (AbsPoly, usize) {
     let mut out = AbsPoly::new();
     let mut expansions = 0usize;
@@ -86,11 +60,7 @@ fn abs_compose(f: &v1::Function, repl: &BTreeMap<u64, v1::Function>, floor1: boo
         for id in &ids {
             let factor = match repl.get(id) {
                 Some(r) => abs_of(r, floor1),
-                None => {
-                    let mut m = AbsPoly::new();
-                    m.insert(vec![*id], 1.0);
-                    m
-                }
+                None => abs_var(*id),
             };
             cur = abs_mul(&cur, &factor);
         }
